@@ -9,6 +9,7 @@ import (
 	"math"
 	"os"
 	"path/filepath"
+	"runtime"
 	"runtime/debug"
 
 	"github.com/gabriel-vasile/mimetype"
@@ -342,6 +343,63 @@ func c01Run(c *fw.Ctx, b fw.Batch) {
 				}
 			}
 		}
+	case "concurrent-limit":
+		// "never panics, never reads outside" also while another goroutine keeps changing
+		// the limit (the limit is a process-wide setting that real programs do change):
+		// guarded inputs (cap == len, inaccessible page behind) through Detect and DetectReader
+		stop := make(chan struct{})
+		tdone := make(chan struct{})
+		go func() {
+			defer close(tdone)
+			vals := []uint32{1, 2, 16, 100, 3072, 0, 1 << 20, 7, 511, 4096}
+			for i := 0; ; i++ {
+				select {
+				case <-stop:
+					return
+				default:
+				}
+				mimetype.SetLimit(vals[i%len(vals)])
+				if i%64 == 0 {
+					runtime.Gosched()
+				}
+			}
+		}()
+		n := 0
+		for rep := 0; rep < 1+b.N; rep++ {
+			for _, s := range seeds {
+				if len(s) > 4096 {
+					s = s[:4096]
+				}
+				for _, k := range []int{len(s), len(s) / 2, 17, 101, 513} {
+					if k > len(s) || k == 0 {
+						continue
+					}
+					data := s[:k]
+					key := fw.InputKey(data, 0, "Detect/concurrent-SetLimit")
+					mk := func() any {
+						return c01Case{Kind: "concurrent-limit", In: append([]byte(nil), data...), Entry: "concurrent-limit", InQ: fw.Quote(data, 100)}
+					}
+					c.Trace(func() (string, any) { return key, mk() })
+					g := st.arena.Place(data)
+					c.Guard(key, mk, func() {
+						for j := 0; j < 6; j++ {
+							if mimetype.Detect(g) == nil {
+								panic("nil result from Detect")
+							}
+						}
+						if m, _ := mimetype.DetectReader(&c01ChunkReader{b: g, r: r, mode: 4}); m == nil {
+							panic("nil result from DetectReader")
+						}
+					})
+					n += 7
+				}
+			}
+		}
+		close(stop)
+		<-tdone
+		mimetype.SetLimit(3072)
+		c.Eval(int64(n))
+		c.Count("detections_while_the_limit_was_changing", int64(n))
 	case "race-sweep":
 		// reduced sweep under the race-detector build (implies checkptr)
 		lo, hi := split(len(seeds), b.Idx, b.Of)
@@ -376,6 +434,11 @@ func init() {
 			bm := batches("bombs", 1, 0, 900)
 			bm[0].Env = []string{"GOMAXPROCS=1", "GOGC=off"}
 			bs = append(bs, bm...)
+			cl := batches("concurrent-limit", 4, 6, 900)
+			if tier == "thorough" {
+				cl = batches("concurrent-limit", 8, 120, 3000)
+			}
+			bs = append(bs, cl...)
 			if tier == "thorough" {
 				rb := batches("race-sweep", 8, 0, 3000)
 				for i := range rb {
@@ -396,6 +459,9 @@ func init() {
 			switch k.Entry {
 			case "bomb":
 				c01Run(c, fw.Batch{Kind: "bombs"})
+			case "concurrent-limit":
+				fmt.Println("schedules are not deterministic: the concurrent-limit workload is re-run")
+				c01Run(c, fw.Batch{Kind: "concurrent-limit", N: 40})
 			case "sweep":
 				st.sweep(c, k.Kind, k.In, false)
 			default:
